@@ -1124,11 +1124,21 @@ func opValueStateVarJournal(ctx context.Context, pc *uint64, interpreter *EVMInt
 }
 
 func loadDataFromMem(memPtr *uint256.Int, mem *Memory) ([]byte, uint64, error) {
-	offset := int64(memPtr.Uint64())
-	dataLen := new(uint256.Int).SetBytes(mem.GetCopy(offset, 32))
 	if !memPtr.IsUint64() {
 		return nil, 0, errors.New("mem data too long")
 	}
 
-	return mem.GetCopy(offset+32, int64(dataLen.Uint64())), dataLen.Uint64(), nil
+	// the length word and the data behind it must lie inside the memory the frame already has:
+	// journal instructions do not (pay to) expand memory
+	offset, memLen := memPtr.Uint64(), uint64(mem.Len())
+	if offset > memLen || memLen-offset < 32 {
+		return nil, 0, errors.New("mem data out of range")
+	}
+
+	dataLen := new(uint256.Int).SetBytes(mem.GetCopy(int64(offset), 32))
+	if !dataLen.IsUint64() || dataLen.Uint64() > memLen-offset-32 {
+		return nil, 0, errors.New("mem data out of range")
+	}
+
+	return mem.GetCopy(int64(offset+32), int64(dataLen.Uint64())), dataLen.Uint64(), nil
 }
